@@ -19,6 +19,7 @@ import Urandom.Generated.Cert67280421310721
 import Urandom.Generated.Cert59649589127497217
 import Urandom.Generated.Cert5704689200685129054721
 import Urandom.Props.C03
+import Urandom.Lemmas.XoOutput
 /-
 C08 - jump/split yield non-overlapping streams: fixed stride, full period.
 
@@ -152,6 +153,84 @@ theorem xoshiro_jump_iterate (s : S) (i : ℕ) : Xoshiro.jump^[i] s = advance^[i
   | succ i ih =>
     rw [Function.iterate_succ_apply', ih, xoshiro_jump_eq_pow, ← Function.iterate_add_apply]
     congr 1; ring
+
+/-! ### the OUTPUT sequence of xoshiro256++ has the full period too -/
+
+theorem Nper_odd_primes (r : ℕ) (hr : r.Prime) (hd : r ∣ Nper) : r ≠ 2 := by
+  rintro rfl
+  have : ¬ (2 ∣ Nper) := by norm_num [Nper]
+  exact this hd
+
+/-- `2^256 - 1` is squarefree: a number divisible by each of its prime factors is divisible by it -/
+theorem Nper_dvd_of_primes (m : ℕ) (h : ∀ r : ℕ, r.Prime → r ∣ Nper → r ∣ m) : Nper ∣ m := by
+  have d (q : ℕ) (hq : q.Prime) (hd : q ∣ Nper) := h q hq hd
+  have h3 := d 3 prime_3 (by norm_num [Nper])
+  have h5 := d 5 prime_5 (by norm_num [Nper])
+  have h17 := d 17 prime_17 (by norm_num [Nper])
+  have h257 := d 257 prime_257 (by norm_num [Nper])
+  have h641 := d 641 prime_641 (by norm_num [Nper])
+  have h65537 := d 65537 prime_65537 (by norm_num [Nper])
+  have h274177 := d 274177 prime_274177 (by norm_num [Nper])
+  have h6700417 := d 6700417 prime_6700417 (by norm_num [Nper])
+  have h9 := d 67280421310721 prime_67280421310721 (by norm_num [Nper])
+  have h10 := d 59649589127497217 prime_59649589127497217 (by norm_num [Nper])
+  have h11 := d 5704689200685129054721 prime_5704689200685129054721 (by norm_num [Nper])
+  rw [Nper_factor]
+  have c1 := Nat.Coprime.mul_dvd_of_dvd_of_dvd (by norm_num : Nat.Coprime 3 5) h3 h5
+  have c2 := Nat.Coprime.mul_dvd_of_dvd_of_dvd (by norm_num : Nat.Coprime (3 * 5) 17) c1 h17
+  have c3 := Nat.Coprime.mul_dvd_of_dvd_of_dvd (by norm_num : Nat.Coprime (3 * 5 * 17) 257) c2 h257
+  have c4 := Nat.Coprime.mul_dvd_of_dvd_of_dvd (by norm_num : Nat.Coprime (3 * 5 * 17 * 257) 641) c3 h641
+  have c5 := Nat.Coprime.mul_dvd_of_dvd_of_dvd (by norm_num : Nat.Coprime (3 * 5 * 17 * 257 * 641) 65537) c4 h65537
+  have c6 := Nat.Coprime.mul_dvd_of_dvd_of_dvd (by norm_num : Nat.Coprime (3 * 5 * 17 * 257 * 641 * 65537) 274177) c5 h274177
+  have c7 := Nat.Coprime.mul_dvd_of_dvd_of_dvd (by norm_num : Nat.Coprime (3 * 5 * 17 * 257 * 641 * 65537 * 274177) 6700417) c6 h6700417
+  have c8 := Nat.Coprime.mul_dvd_of_dvd_of_dvd (by norm_num : Nat.Coprime (3 * 5 * 17 * 257 * 641 * 65537 * 274177 * 6700417) 67280421310721) c7 h9
+  have c9 := Nat.Coprime.mul_dvd_of_dvd_of_dvd (by norm_num : Nat.Coprime (3 * 5 * 17 * 257 * 641 * 65537 * 274177 * 6700417 * 67280421310721) 59649589127497217) c8 h10
+  exact Nat.Coprime.mul_dvd_of_dvd_of_dvd (by norm_num : Nat.Coprime (3 * 5 * 17 * 257 * 641 * 65537 * 274177 * 6700417 * 67280421310721 * 59649589127497217) 5704689200685129054721) c9 h11
+
+/-- **The sequence of 64-bit outputs of xoshiro256++ has period exactly `2^256 - 1`**, from every
+non-zero state: if the outputs repeat with period `m` then `2^256 - 1` divides `m`. (The state
+sequence is one cycle through all non-zero states; every output value other than 0 is produced by
+exactly `2^192` states, a power of two, while the period is odd and squarefree: a shorter output
+period would make a power of the transition permute such a fibre without fixed points, with all
+orbits of an odd prime size.) -/
+theorem xoshiro_output_full_period (s : S) (hs : s ≠ zeroS) (m : ℕ)
+    (hm : ∀ n, outPlusPlus (advance^[n + m] s) = outPlusPlus (advance^[n] s)) : (2 ^ 256 - 1) ∣ m := by
+  have hN : (2 : ℕ) ^ 256 - 1 = Nper := by norm_num [Nper]
+  rw [hN]
+  refine XoOut.output_period advance zeroS xoshiro_zero_fixed Nper ?_ xoshiro_full_period_Nper xoshiro_never_zero ?_
+    outPlusPlus 1#64 (by decide) 192 (fun {_} => XoOut.card_fibre 1#64) Nper_odd_primes Nper_dvd_of_primes s hs m hm
+  · rw [XoOut.card_S]; norm_num [Nper]
+  · intro x; rw [← iter_eq_iterate]; exact period_of_certN certN x
+
+/-- hence two generators started in different non-zero states never produce the same stream of
+64-bit outputs (they sit on the one cycle, less than a period apart) -/
+theorem xoshiro_distinct_states_distinct_streams (s t : S) (hs : s ≠ zeroS) (ht : t ≠ zeroS) (hst : s ≠ t) :
+    ∃ n, outPlusPlus (advance^[n] s) ≠ outPlusPlus (advance^[n] t) := by
+  by_contra hall
+  push_neg at hall
+  -- `t` lies on the cycle of `s`, at a distance `d < 2^256 - 1`, `d ≠ 0`
+  have hcard : Fintype.card S = Nper + 1 := by rw [XoOut.card_S]; norm_num [Nper]
+  obtain ⟨d, hd⟩ := XoOut.single_cycle advance zeroS Nper hcard xoshiro_full_period_Nper xoshiro_never_zero s hs t ht
+  -- reduce the distance below the period
+  have hper := xoshiro_full_period_Nper s hs
+  have hdm : advance^[d % Nper] s = t := by
+    rw [← hd]
+    have := Function.iterate_mod_minimalPeriod_eq (f := advance) (x := s) (n := d)
+    rw [hper] at this
+    exact this
+  have hpos : d % Nper ≠ 0 := by
+    intro h0
+    rw [h0] at hdm
+    exact hst hdm
+  have hdiv : (2 ^ 256 - 1) ∣ d % Nper := by
+    apply xoshiro_output_full_period s hs
+    intro n
+    rw [Function.iterate_add_apply, hdm]
+    exact (hall n).symm
+  have hN : (2 : ℕ) ^ 256 - 1 = Nper := by norm_num [Nper]
+  rw [hN] at hdiv
+  have hlt : d % Nper < Nper := Nat.mod_lt _ Nper_pos
+  exact hpos (Nat.eq_zero_of_dvd_of_lt hdiv hlt)
 
 /-! ### SplitMix64 / Wyrand: jump = 2^40 steps, period exactly 2^64 -/
 
